@@ -267,11 +267,28 @@ def norm_index(i, n):
     return z3.If(i < 0, z3.If(n + i < 0, z3.IntVal(0), n + i), z3.If(i > n, n, i))
 
 
+def _note_read(I, v, upto):
+    h = I.st.ghost.get('ON_BYTES_READ')
+    if h is not None:
+        h(I, v, upto)
+
+
+def _in_range(I, x, n):
+    """is 0 <= x <= n known on this path? (then the slice index needs no normalisation)"""
+    if I.pure:
+        return False
+    try:
+        return not I.st.feasible(z3.Not(z3.And(x >= 0, x <= n)))
+    except Exception:
+        return False
+
+
 def str_slice(I, v, lo, hi):
     n = z3.Length(v.t)
-    a = z3.IntVal(0) if lo is None else norm_index(lo, n)
-    b = n if hi is None else norm_index(hi, n)
+    a = z3.IntVal(0) if lo is None else (lo if _in_range(I, lo, n) else norm_index(lo, n))
+    b = n if hi is None else (hi if _in_range(I, hi, n) else norm_index(hi, n))
     ln = z3.If(b > a, b - a, z3.IntVal(0))
+    _note_read(I, v, None if hi is None else b)
     r = z3.simplify(z3.SubString(v.t, a, ln))
     if hi is None and not I.pure:
         # s[:a] ++ s[a:] == s  (sound fact about slicing, helps the sequence solver)
@@ -285,9 +302,13 @@ def str_index(I, v, i):
     if not I.branch(ok, 'idx_ok'):
         raise_(I, 'IndexError', VStr('index out of range'))
     j = z3.If(i < 0, n + i, i)
+    _note_read(I, v, j + 1)
     ch = z3.SubString(v.t, j, 1)
     if v.is_bytes:
-        return VInt(z3.StrToCode(ch))
+        code = z3.StrToCode(ch)
+        if not I.pure:
+            I.assume(z3.And(code >= 0, code <= 255))     # bytes are strings over 0..255
+        return VInt(code)
     return VStr(ch)
 
 
@@ -337,6 +358,10 @@ def str_method(I, v, name, args, kwargs):
     if name == 'encode':
         I.st.trusted_used.add('str.encode(): uninterpreted injective function py_encode (total; UnicodeEncodeError not modelled)')
         return VStr(fn('py_encode', S(), S())(t), True)
+    if name == 'decode' and (len(args) > 1 and isinstance(args[1], VStr) and z3.is_string_value(args[1].t)
+                             and args[1].t.as_string() in ('replace', 'ignore') or 'errors' in kwargs):
+        I.st.trusted_used.add("bytes.decode(enc, 'replace'): total function py_decode_replace (never raises)")
+        return VStr(fn('py_decode_replace', S(), S())(t), False)
     if name == 'decode':
         I.st.trusted_used.add('bytes.decode(): py_decode uninterpreted, may raise UnicodeDecodeError')
         okp = fn('py_decode_ok', S(), z3.BoolSort())(t)
@@ -721,3 +746,33 @@ def dict_method(I, dv, name, args, kwargs):
     if name == 'clear':
         return NONE, VDict(dv.kk, dv.vk, z3.K(dv.kk.sorts()[0], z3.BoolVal(False)), dv.vals, dv.loc, dv.default)
     raise Unsupported('dict.%s' % name)
+
+
+def B2A(t):
+    """spec bridge: the array of byte values of a bytes object"""
+    return fn('BYTES_TO_ARRAY', S(), z3.ArraySort(z3.IntSort(), z3.IntSort()))(t)
+
+
+def A2B(arr, lo, hi):
+    """spec bridge: the bytes object whose content is arr[lo:hi]"""
+    return fn('ARRAY_TO_BYTES', z3.ArraySort(z3.IntSort(), z3.IntSort()), z3.IntSort(), z3.IntSort(), S())(arr, lo, hi)
+
+
+def bytes_of_list(I, lst):
+    """bytes(list_of_ints) / bytearray(list): uninterpreted bridge with the facts: length, and element-wise inverse of B2A"""
+    r = A2B(lst.arrs[0], lst.lo, lst.hi)
+    i = core.fresh('bi', z3.IntSort())
+    n = lst.hi - lst.lo
+    I.assume(z3.Length(r) == z3.If(n >= 0, n, 0))
+    I.assume(z3.ForAll([i], z3.Implies(z3.And(0 <= i, i < n), z3.Select(B2A(r), i) == z3.Select(lst.arrs[0], lst.lo + i))))
+    return VStr(r, True)
+
+
+def list_of_bytes(I, v):
+    """list(bytes_obj): the array view B2A(bytes) on the window [0, len); A2B of it gives the bytes back"""
+    arr = B2A(v.t)
+    n = z3.Length(v.t)
+    I.assume(A2B(arr, z3.IntVal(0), n) == v.t)
+    i = core.fresh('bi', z3.IntSort())
+    I.assume(z3.ForAll([i], z3.Implies(z3.And(0 <= i, i < n), z3.And(z3.Select(arr, i) >= 0, z3.Select(arr, i) <= 255))))
+    return VList(Int, [arr], z3.IntVal(0), n)
